@@ -69,6 +69,7 @@ def cases(seed, tier):
             extra["silence-logs"] = sl
         ticks = [{"step_ns": 10**9} for _ in range(rng.randint(3, 5))]
         hooks, hspec = None, {}
+        removed = set()
         if rng.random() < 0.25:
             # a prekill hook that needs a few polls: the action must answer ASYNC_PAUSED exactly while it is pending
             hooks = [{"name": "v_hook", "args": {"id": "h0", "cgroup": rng.choice(["/", "wl/*", "wl"])}}]
@@ -84,6 +85,14 @@ def cases(seed, tier):
                             ticks[t].setdefault("ops", []).append({"op": "write", "cg": rel, "file": "cgroup.procs", "text": ""})
                             ticks[t]["ops"].append({"op": "write", "cg": rel, "file": "cgroup.events", "text": "populated 0\nfrozen 0\n"})
                             ticks[t]["ops"].append({"op": "write", "cg": rel, "file": "pids.current", "text": "0\n"})
+            elif rng.random() < 0.6:
+                # the victim (a leaf) is removed outright while its hook runs: nothing was signalled, so the action answers CONTINUE
+                # (or goes on to the next candidate), never STOP
+                for t in range(1, len(ticks)):
+                    for rel in info:
+                        if rel != "wl" and not info[rel]["children"] and rng.random() < 0.2 and rel not in removed:
+                            ticks[t].setdefault("ops", []).append({"op": "rm", "cg": rel})
+                            removed.add(rel)
         names = (KG.LONG_RS, KG.LONG_GROUP) if rng.random() < 0.08 else ("rk", "g")
         scn = KG.base_scn(cid, cgs, KG.kill_config(plugin, args, extra, hooks=hooks, rs_name=names[0], group=names[1]), ticks=ticks, kill=kill, linger=linger, hooks=hspec)
         if rng.random() < 0.15:
